@@ -4,7 +4,7 @@ CONSTANTS
   CapBoth = 2
   CapAgg = 2
   CapRes = 2
-  Kinds = {"simple", "drop", "distinct", "lookup1", "lookup2", "count", "limit", "both", "agg"}
+  Kinds = {"simple", "distinct", "lookup1", "lookup2", "count", "limit", "both", "agg"}
   MaxStages = 3
   Ns = {0, 1, 3, 6, 13}
   Fs = {1, 0, 2, 3}
